@@ -254,6 +254,21 @@ class G(object):
         if depth < 3:
             for _ in range(r.choice([0, 1, 1, 2, 3]) if depth < 2 else r.choice([0, 0, 1])):
                 x, e = self.element(depth + 1, scope)
+                if r.random() < 0.15 and e[0] == 'e':
+                    # the subtree is built as a result tree fragment here (where the prefixes of this place are in scope) and copied into a
+                    # holder that binds a prefix of its own, or that is the copy of a source element with its own namespace nodes
+                    self.n += 1
+                    vname = 'rtf%d' % self.n
+                    body += '<xsl:variable name="%s">%s</xsl:variable>' % (vname, x)
+                    if r.random() < 0.6:
+                        hp, hu, hl = r.choice(PREFIXES[:6] + ['a', 'b']), r.choice(URIS), r.choice(LOCALS)
+                        x = '<%s:%s xmlns:%s="%s"><xsl:copy-of select="$%s"/></%s:%s>' % (hp, hl, hp, hu, vname, hp, hl)
+                        e = ('e', (hu, hl), {}, [e])
+                    else:
+                        hs = r.choice(self.src_elems + [c for s2 in self.src_elems for c in s2.children if c.kind == refxml.ELEM])
+                        x = '<xsl:for-each select="%s"><xsl:copy><xsl:copy-of select="$%s"/></xsl:copy></xsl:for-each>' % (self.src_path(hs), vname)
+                        e = ('e', (hs.uri, hs.local), {}, [e])
+                    self.features.add('rtf-copied-into-holder')
                 body += x
                 if kids and kids[-1][0] == 't' and e[0] == 't':
                     kids[-1] = ('t', kids[-1][1] + e[1])
